@@ -516,7 +516,11 @@ Proof.
   intros Hn (Hp & s & ->). unfold name_ok in *. rewrite !andb_true_iff in *.
   destruct Hn as [[_ H2] H3]. rewrite forallb_app, andb_true_iff in H2. destruct H2 as [H2 _].
   repeat split; [destruct p; [contradiction|reflexivity]|exact H2|].
-  destruct p as [|c [|c' r]]; try reflexivity. exact H3.
+  destruct p as [|c [|c' r]]; try reflexivity. cbn [app] in H3.
+  apply andb_true_iff in H3 as [H3 H4]. apply andb_true_iff; split; [exact H3|].
+  apply negb_true_iff in H4. apply negb_true_iff.
+  change (c :: c' :: r ++ s) with ((c :: c' :: r) ++ s) in H4. rewrite existsb_app in H4.
+  apply orb_false_iff in H4 as [H4 _]. exact H4.
 Qed.
 
 Lemma on_path_inbox_case n p : name_ok n = true -> on_path p n -> is_inbox p = true ->
@@ -525,7 +529,7 @@ Proof.
   intros Hn (Hp & s & E) Hi. apply is_inbox_single in Hi as Hc. destruct Hc as (c & ->).
   destruct s as [|c' r]; [right; rewrite app_nil_r in E; auto|left]. subst n. cbn in Hn.
   unfold name_ok in Hn. rewrite !andb_true_iff in Hn. destruct Hn as [_ H3]. cbn in H3.
-  cbn in Hi. rewrite Hi in H3. cbn in H3. apply ceqb_eq in H3. subst c. reflexivity.
+  cbn in Hi. rewrite Hi in H3. cbn in H3. destruct H3 as [H3 _]. apply ceqb_eq in H3. subst c. reflexivity.
 Qed.
 
 Lemma new_name_ok_not_inbox n : new_name_ok n = true -> is_inbox n = false.
@@ -883,17 +887,32 @@ Proof. reflexivity. Qed.
 Lemma name_ok_nonempty n : name_ok n = true -> n <> [].
 Proof. intros H; apply name_ok_comps in H as [H _]; exact H. Qed.
 
-Lemma name_ok_swap o n s : name_ok n = true -> name_ok (o ++ s) = true -> is_inbox n = false ->
-  name_ok (n ++ s) = true.
+Lemma name_ok_swap o n s : name_ok n = true -> new_name_ok n = true -> o <> [] ->
+  name_ok (o ++ s) = true -> name_ok (n ++ s) = true.
 Proof.
-  intros Hn Hos Hi. unfold name_ok in *. rewrite !andb_true_iff in *.
-  destruct Hn as [[N1 N2] N3]. destruct Hos as [[_ O2] _].
+  intros Hn Hw Ho Hos. destruct s as [|d s]; [rewrite app_nil_r; exact Hn|].
+  assert (Hi : is_inbox n = false) by (apply new_name_ok_not_inbox, Hw).
+  assert (Dn : existsb all_digits n = false).
+  { unfold new_name_ok in Hw. rewrite !andb_true_iff, !negb_true_iff in Hw. tauto. }
+  unfold name_ok in *. rewrite !andb_true_iff in *.
+  destruct Hn as [[N1 N2] N3]. destruct Hos as [[_ O2] O3].
   rewrite forallb_app, andb_true_iff in O2. destruct O2 as [_ O2].
+  assert (Ds : existsb all_digits (d :: s) = false).
+  { destruct o as [|x o]; [contradiction|]. destruct o as [|y o]; cbn [app] in O3;
+      apply andb_true_iff in O3 as [_ O3]; apply negb_true_iff in O3.
+    - cbn [existsb] in O3. apply orb_false_iff in O3 as [_ O3]. exact O3.
+    - change (x :: y :: o ++ d :: s) with ((x :: y :: o) ++ d :: s) in O3. rewrite existsb_app in O3.
+      apply orb_false_iff in O3 as [_ O3]. exact O3. }
   repeat split.
   - destruct n; [discriminate|reflexivity].
   - rewrite forallb_app. apply andb_true_iff; split; assumption.
-  - destruct n as [|c [|c' r]]; [discriminate| |exact N3].
-    cbn [app]. destruct s as [|c' r]; [reflexivity|]. unfold is_inbox in Hi. rewrite Hi. reflexivity.
+  - destruct n as [|c [|c' r]]; [discriminate| |].
+    + cbn [app]. apply andb_true_iff; split.
+      * unfold is_inbox in Hi. rewrite Hi. reflexivity.
+      * apply negb_true_iff. change (c :: d :: s) with ([c] ++ d :: s). rewrite existsb_app, Dn, Ds. reflexivity.
+    + cbn [app]. apply andb_true_iff in N3 as [N3 _]. apply andb_true_iff; split; [exact N3|].
+      apply negb_true_iff. change (c :: c' :: r ++ d :: s) with ((c :: c' :: r) ++ d :: s).
+      rewrite existsb_app, Dn, Ds. reflexivity.
 Qed.
 
 Lemma adds_refl (T : tree) (P : name -> Prop) : (forall m, P m -> T m <> None) -> adds T T P.
